@@ -1,14 +1,194 @@
-// Package c05 is the correspondence area of property C05 (stub: the slice is not built yet).
+// Package c05 corresponds the real reflection.Resolver (built by ResolverBuilder.Build, polled
+// manually, observed at its Watcher) with the Lean model GB.C05 by trace validation: the resolver
+// talks to a scripted reflection service (a fake grpcadapter.ClientPool speaking the reflection
+// protocol, optionally a real gRPC server over bufconn), the harness logs every request/answer
+// and what the watcher received, the Lean driver replays the log through the model.
 package c05
 
 import (
-	"math/rand"
+	"fmt"
+	"sort"
+	"strings"
+	"sync"
+	"sync/atomic"
+	"time"
+
+	"github.com/renbou/grpcbridge/bridgedesc"
+	"github.com/renbou/grpcbridge/grpcadapter"
+	"github.com/renbou/grpcbridge/reflection"
+	"github.com/renbou/grpcbridge/verifx"
+	"google.golang.org/grpc/status"
+	"google.golang.org/protobuf/reflect/protoreflect"
+	"google.golang.org/protobuf/reflect/protoregistry"
+	"verif/harness/common"
 )
 
 type Area struct{}
 
 func (Area) Name() string { return "c05" }
 
-func (Area) Exec(input string) string { return "UNIMPLEMENTED" }
+func hexS(s string) string         { return common.HexS(s) }
+func mustUnHex(s string) []byte    { return common.MustUnHex(s) }
+func (Area) Extra() map[string]any { return genStats() }
 
-func (Area) Gen(r *rand.Rand, tier string, emit func(string)) {}
+// ---- poll synchronisation through the resolver's yield points ----
+
+var (
+	hookOnce sync.Once
+	curExec  atomic.Pointer[execCtx]
+	execSeq  atomic.Int64
+)
+
+type execCtx struct {
+	target string
+	done   chan struct{}
+}
+
+func installHook() {
+	hookOnce.Do(func() {
+		verifx.SetHook(func(name string, args ...string) {
+			if name != "resolver.beforeSelect" || len(args) == 0 {
+				return
+			}
+			if e := curExec.Load(); e != nil && e.target == args[0] {
+				e.done <- struct{}{}
+			}
+		})
+	})
+}
+
+type recWatcher struct {
+	mu   sync.Mutex
+	recs []string
+}
+
+func (w *recWatcher) add(s string) {
+	w.mu.Lock()
+	w.recs = append(w.recs, s)
+	w.mu.Unlock()
+}
+
+func (w *recWatcher) drain() []string {
+	w.mu.Lock()
+	defer w.mu.Unlock()
+	r := w.recs
+	w.recs = nil
+	return r
+}
+
+func (w *recWatcher) UpdateDesc(d *bridgedesc.Target) { w.add("ok:" + showTarget(d)) }
+func (w *recWatcher) ReportError(err error)           { w.add(fmt.Sprintf("err:%d", int(status.Code(err)))) }
+
+func msgName(m bridgedesc.Message) string {
+	if m == nil {
+		return "-"
+	}
+	return tok(string(m.New().ProtoReflect().Descriptor().FullName()))
+}
+
+func showTarget(d *bridgedesc.Target) string {
+	var files []string
+	if reg, ok := d.FileResolver.(*protoregistry.Files); ok && reg != nil {
+		reg.RangeFiles(func(fd protoreflect.FileDescriptor) bool {
+			files = append(files, fd.Path())
+			return true
+		})
+	}
+	sort.Strings(files)
+	svcs := make([]string, 0, len(d.Services))
+	idx := make([]int, len(d.Services))
+	for i := range idx {
+		idx[i] = i
+	}
+	sort.SliceStable(idx, func(a, b int) bool { return d.Services[idx[a]].Name < d.Services[idx[b]].Name })
+	for _, i := range idx {
+		s := d.Services[i]
+		parts := []string{tok(string(s.Name))}
+		for _, m := range s.Methods {
+			bs := make([]string, len(m.Bindings))
+			for j, b := range m.Bindings {
+				bs[j] = tok(b.HTTPMethod) + "@" + tok(b.Pattern) + "@" + tok(b.RequestBodyPath) + "@" + tok(b.ResponseBodyPath)
+			}
+			parts = append(parts, tok(m.RPCName)+"~"+msgName(m.Input)+"~"+msgName(m.Output)+"~"+b01(m.ClientStreaming)+b01(m.ServerStreaming)+"~"+strings.Join(bs, "^"))
+		}
+		svcs = append(svcs, strings.Join(parts, "!"))
+	}
+	return strings.Join(files, ",") + "#" + strings.Join(svcs, ";")
+}
+
+// Exec runs the real resolver against the scripted target of the case line.
+func (Area) Exec(input string) string {
+	c := decCase(input)
+	installHook()
+	t := newTarget(c)
+	for _, f := range append(append([]*fileT{}, c.own...), c.aliens...) {
+		f.bytes()
+	}
+	var pool poolLike
+	fp := &fakePool{t: t}
+	pool = fp
+	if c.wire {
+		wp := newWirePool(fp)
+		defer wp.close()
+		pool = wp
+	}
+	name := fmt.Sprintf("c05-%d", execSeq.Add(1))
+	ec := &execCtx{target: name, done: make(chan struct{}, 4)}
+	curExec.Store(ec)
+	defer curExec.Store(nil)
+
+	w := &recWatcher{}
+	builder := reflection.NewResolverBuilder(pool, reflection.ResolverOpts{
+		PollManually:   true,
+		ReqTimeout:     3 * time.Second,
+		IgnorePrefixes: append([]string(nil), c.ign...),
+		OnlyServices:   c.only,
+		RecursionLimit: c.lim,
+	})
+	var out []string
+	var resolver *reflection.Resolver
+	for i, p := range c.polls {
+		run := &pollRun{poll: p, pol: parsePolicy(p.pol)}
+		fp.mu.Lock()
+		fp.cur = run
+		fp.mu.Unlock()
+		if i == 0 {
+			resolver = builder.Build(name, w)
+		} else {
+			resolver.ResolveNow()
+		}
+		hung := false
+		select {
+		case <-ec.done:
+		case <-time.After(20 * time.Second):
+			hung = true
+		}
+		fp.mu.Lock()
+		log := run.log
+		fp.mu.Unlock()
+		out = append(out, "poll")
+		out = append(out, log...)
+		recs := w.drain()
+		switch {
+		case hung:
+			out = append(out, "R=hang")
+		case len(recs) == 0:
+			out = append(out, "R=none")
+		case len(recs) == 1:
+			out = append(out, "R="+recs[0])
+		default:
+			out = append(out, "R=multi:"+strings.Join(recs, "&"))
+		}
+		if hung {
+			return strings.Join(out, " ") // the resolver goroutine is stuck; do not wait for Close
+		}
+	}
+	if resolver != nil {
+		resolver.Close()
+	}
+	return strings.Join(out, " ")
+}
+
+type poolLike interface {
+	grpcadapter.ClientPool
+}
